@@ -75,9 +75,16 @@ Section worker.
     if is_add_listener name then
       if o_listener o then mkW (w_view w) (w_base w + 1) (S (w_slots w)) (w_stopping w) (w_alive w) else w
     else if name =? "DeactivateListener" then
-      if o_listener o then mkW (w_view w) (w_base w) (pred (w_slots w)) (w_stopping w) (w_alive w) else w
+      (* the listener stays configured: it keeps its slot *)
+      if o_listener o && deactivate_frees_slot
+      then mkW (w_view w) (w_base w) (pred (w_slots w)) (w_stopping w) (w_alive w) else w
     else if name =? "RemoveListener" then
-      if o_applied o then mkW (w_view w) (w_base w - 1) (w_slots w) (w_stopping w) (w_alive w) else w
+      (* [o_listener]: the listener had been added to its proxy, so it owns a slot *)
+      if o_applied o
+      then mkW (w_view w) (w_base w - 1)
+               (if remove_frees_slot && o_listener o then pred (w_slots w) else w_slots w)
+               (w_stopping w) (w_alive w)
+      else w
     else w.
 
   Definition set_view (w : worker) (v : view) : worker :=
